@@ -369,4 +369,26 @@ example : ∀ op ∈ [([0], (0.5:ℝ)), ([1, 2], 0.25), ([0], 0.75)], ∀ t ∈ 
 example : ((Dens.init 3 : Dens ℝ).set [0, 1] 2).rho 1 = some 2 := by
   rw [density_set_rho]; simp
 
+/-! ### a contact distance written straight into the sigma table (non-additive mixtures) -/
+
+/-- `diameter.sigma[i,j] = v` is read back from both orders … -/
+theorem setSigma_read (d : Diam ℝ) (i j : ℕ) (v : ℝ) :
+    (d.setSigma i j v).sigma i j = some v ∧ (d.setSigma i j v).sigma j i = some v := by
+  simp [Diam.setSigma, setSym]
+
+/-- … touches no other pair, no diameter and no volume … -/
+theorem setSigma_frame (d : Diam ℝ) (i j a b : ℕ) (v : ℝ) (h : ¬ ((a = i ∧ b = j) ∨ (a = j ∧ b = i))) :
+    (d.setSigma i j v).sigma a b = d.sigma a b ∧ (d.setSigma i j v).diam = d.diam ∧ (d.setSigma i j v).volume = d.volume := by
+  simp [Diam.setSigma, setSym, h]
+
+/-- … and stays until one of the two diameters is assigned again, when the arithmetic mean comes back -/
+theorem setSigma_overwritten_by_diameter (d : Diam ℝ) (i j : ℕ) (v w dj : ℝ) (hj : j < d.n)
+    (hdj : d.diam j = some dj) (hne : i ≠ j) :
+    ((d.setSigma i j v).setOne i w).sigma i j = some ((w + dj) / 2) := by
+  have hs : ((d.setSigma i j v).setOne i w).sigma =
+      rowFold (fun t2 => ((upd d.diam i (some w)) t2).map (fun d2 => some ((w + d2) / 2))) i (d.setSigma i j v).sigma d.n := by
+    unfold Diam.setOne; rw [diam_fold_sigma]; rfl
+  rw [hs, rowFold_apply]
+  simp [upd, hne.symm, hj, hdj]
+
 end C15
